@@ -804,31 +804,57 @@ func cmdClassify(path string, seed int64, n int) {
 		out.Summary(map[string]interface{}{"infra_error": err.Error()})
 		return
 	}
-	pl := &pool{peers: map[bool]*peer{}}
-	defer pl.closeAll()
-	reproduced := 0
+	// the cases are re-run side by side: a change that makes many of them hang (each waits for its
+	// time limit) must not turn the classification into hours
+	var (
+		mu         sync.Mutex
+		wg         sync.WaitGroup
+		reproduced int
+		infra      string
+		ch         = make(chan int)
+	)
+	for w := 0; w < 16; w++ {
+		wg.Add(1)
+		go func() {
+			defer wg.Done()
+			pl := &pool{peers: map[bool]*peer{}}
+			defer pl.closeAll()
+			for i := range ch {
+				c := caseAt(seed, i)
+				own, err := canonical(c.K, c.Rev2, &c.Req, c.data)
+				if err != nil {
+					mu.Lock()
+					infra = err.Error()
+					mu.Unlock()
+					continue
+				}
+				c.Exp, _ = json.Marshal(own)
+				v, _ := judge(pl, c)
+				if v == nil {
+					continue
+				}
+				mu.Lock()
+				if v.infra != "" {
+					infra = v.infra
+				} else {
+					reproduced++
+					rp := caseJSON(c)
+					delete(rp, "exp")
+					out.Mismatch(v.sig, fmt.Sprintf("random case %d of seed %d: %s", i, seed, v.detail),
+						map[string]interface{}{"kind": "random", "seed": seed, "index": i, "case": rp})
+				}
+				mu.Unlock()
+			}
+		}()
+	}
 	for _, i := range idx {
-		c := caseAt(seed, i)
-		own, err := canonical(c.K, c.Rev2, &c.Req, c.data)
-		if err != nil {
-			out.Summary(map[string]interface{}{"infra_error": err.Error()})
-			return
-		}
-		c.Exp, _ = json.Marshal(own)
-		v, _ := judge(pl, c)
-		if v == nil {
-			continue
-		}
-		if v.infra != "" {
-			out.Summary(map[string]interface{}{"infra_error": v.infra})
-			return
-		}
-		reproduced++
-		sig := v.sig
-		rp := caseJSON(c)
-		delete(rp, "exp")
-		out.Mismatch(sig, fmt.Sprintf("random case %d of seed %d: %s", i, seed, v.detail),
-			map[string]interface{}{"kind": "random", "seed": seed, "index": i, "case": rp})
+		ch <- i
+	}
+	close(ch)
+	wg.Wait()
+	if infra != "" {
+		out.Summary(map[string]interface{}{"infra_error": infra})
+		return
 	}
 	out.Summary(map[string]interface{}{"behaviours": len(idx), "steps": len(idx), "mismatches": reproduced})
 }
